@@ -18,3 +18,4 @@ INVARIANT Inv
 INVARIANT OnceInv
 INVARIANT EvalInv
 INVARIANT CtxInv
+INVARIANT AgreeInv
